@@ -7,12 +7,23 @@ from vlib.py2coq import Translator, Ty, Unsupported
 LEVEL = "proof"
 META = {
     "category": "proof",
-    "text": "Kernel theorems (Coq) about the reasoning kernels every Venom pass relies on, stated against an EVM word "
-            "specification tied to a real EVM; the translated kernels are regenerated from /repo on every run. "
-            "Pass-level preservation is covered by correspondence only (partial, see DESIGN.md C14).",
-    "level_note": "Trusted: Coq kernel + vm_compute, py2coq translator (validated per run by CPython-vs-model differential), "
-                  "Word256.v tied to pyrevm on a boundary grid. Not proved: pass control logic (dataflow, SSA, CFG rewriting).",
-    "technique": "Coq proof over py2coq-translated source + differential correspondence",
+    "text": "Three layers, all Coq. (1) Kernel theorems about the reasoning kernels the Venom passes rely on (constant "
+            "folding, 22 range evaluators, branch refinement, overlap tests, effect commutation, algebraic rewrite rules, "
+            "SCCP lattice, stack model/spiller), for all 256-bit values, over source regenerated from /repo by py2coq on "
+            "every run. (2) Verified validators: the RESULT of the real analysis/pass on every function the corpus produces "
+            "is exported and checked by a Gallina checker under vm_compute, and a theorem says an accepted instance is "
+            "sound / behaviour-preserving on EVERY execution of a small-step semantics (range analysis as a whole, "
+            "assert/overflow elimination, affine folding, liveness, dominators/SSA/DFG, remove-unused-variables, copy "
+            "elimination, DFT reordering and further passes as listed in DESIGN IV.4). (3) An executable Venom semantics "
+            "(Venom.v) tied to the real back end on pyrevm, used for per-pass differential search. Passes without a "
+            "validator are covered by (3) only.",
+    "level_note": "Trusted: Coq kernel + vm_compute; py2coq (validated per run by CPython-vs-model differential); Word256.v "
+                  "tied to pyrevm; the exporters that print real IR as Coq literals (cross-checked between two independent "
+                  "exporters); the small-step semantics of RangeFix.v (linked to Venom.v by venom_refines_rangefix). A "
+                  "validator proves each observed invocation, not the pass for all inputs; invocations outside a "
+                  "validator's domain are counted as unsupported in the evidence.",
+    "technique": "Coq proof over py2coq-translated source + verified result validators (certificate checking under vm_compute "
+                 "with a soundness theorem) + differential correspondence",
 }
 
 BIN = ["add", "sub", "mul", "div", "sdiv", "mod", "smod", "exp", "eq", "lt", "gt", "slt", "sgt", "or", "and",
@@ -39,7 +50,7 @@ def eval_kernel_differential(ctx, with_model):
     rnd = ctx.rng("evalgrid")
     full = lit_grid()
     must = [0, 1, 2, -1, -2, -7, 7, 8, 31, 32, 255, 256, 2**255 - 1, 2**255, -(2**255), 2**256 - 1, 2**128, -(2**127)]
-    g = full if ctx.tier == "thorough" else sorted(set(rnd.sample(full, 14) + must))
+    g = full if ctx.tier == "thorough" else sorted(set(rnd.sample(full, 8) + must))
     g = g + [rnd.randrange(-(2**255), 2**256) for _ in range(4)]
     g3 = [-1, -(2**255), 0, 1, 2, 3, 2**255, 2**256 - 1, rnd.randrange(2**256)]
     ge = [0, 1, 2, 3, 8, 255, 256, 257, -1, 2**255, 2**256 - 1]
